@@ -46,6 +46,28 @@ type BasicAuth struct {
 	Next     httpserver.Handler
 	SiteRoot string
 	Rules    []Rule
+
+	// IndexPages are the site's index page names: a request for a
+	// directory is answered with one of them further down the chain,
+	// so rules protecting those files apply to the directory request too.
+	IndexPages []string
+}
+
+// protectedPath returns the path through which resource res applies to a
+// request for reqPath: reqPath itself or, if reqPath is a directory, the
+// index page of it that res protects. It returns "" if res does not apply.
+func (a BasicAuth) protectedPath(reqPath, res string) string {
+	if httpserver.Path(reqPath).Matches(res) {
+		return reqPath
+	}
+	if strings.HasSuffix(reqPath, "/") {
+		for _, indexPage := range a.IndexPages {
+			if httpserver.Path(reqPath + indexPage).Matches(res) {
+				return reqPath + indexPage
+			}
+		}
+	}
+	return ""
 }
 
 // ServeHTTP implements the httpserver.Handler interface.
@@ -65,12 +87,13 @@ func (a BasicAuth) ServeHTTP(w http.ResponseWriter, r *http.Request) (int, error
 ruleLoop:
 	for _, rule := range a.Rules {
 		for _, res := range rule.Resources {
-			if !httpserver.Path(r.URL.Path).Matches(res) {
+			reqPath := a.protectedPath(r.URL.Path, res)
+			if reqPath == "" {
 				continue
 			}
 
 			for _, exclude := range rule.Exclude {
-				if httpserver.Path(r.URL.Path).Matches(exclude) {
+				if httpserver.Path(reqPath).Matches(exclude) {
 					continue ruleLoop
 				}
 			}
